@@ -134,6 +134,7 @@ type Ctx struct {
 	sentinels   map[string]bool
 	baseFrames  map[string]*lazyFrame
 	baseAlloc   map[string]string // heap base -> allocation counter when it came into being
+	structNames map[string]bool   // struct sorts declared in this context
 	axiomsDone  map[string]bool
 	// tid: identifier of a Go type (for objtype facts); nil outside function verification
 	tid func(types.Type) int
@@ -152,6 +153,7 @@ func NewCtx() *Ctx { return &Ctx{declSet: map[string]bool{}} }
 func (c *Ctx) Fresh(prefix, sort string) string {
 	c.nfresh++
 	n := fmt.Sprintf("%s@%d", sanitize(prefix), c.nfresh)
+	c.ensureStructSorts(sort)
 	c.Decls = append(c.Decls, fmt.Sprintf("(declare-fun %s () %s)", n, sort))
 	return n
 }
@@ -162,6 +164,7 @@ func (c *Ctx) DeclareOnce(name, decl string) {
 		return
 	}
 	c.declSet[name] = true
+	c.ensureStructSorts(decl)
 	c.Decls = append(c.Decls, decl)
 }
 
